@@ -457,6 +457,14 @@ def other_objects(pt):
           ('comp-named-mod', lambda n: P.comp(f'PEPS[{n}]K')),
           ('mass-named-static', lambda n: P.mass(f'<[{n}]@S>PEPSK', monoisotopic=False)),
           ('parse-serialize', lambda n: P.parse(f'[{n}]?PEPS[{n}]^2K').serialize())]),
+        ('terminal-rule-string', lambda: '<[TMT6plex]@K,N-term><[+10.5]@C-term>PEPTIDEK/2',
+         [('mass-str', lambda t: P.mass(t)), ('mz-avg-str', lambda t: P.mz(t, monoisotopic=False)),
+          ('fragment-str', lambda t: P.fragment(t, 'by', [1, 2])),
+          ('Fragmenter-str', lambda t: P.Fragmenter(t).fragment(['a', 'y'], 1)),
+          ('comp-str', lambda t: P.comp(t, estimate_delta=True)),
+          ('condense_static-str', lambda t: P.condense_static_mods(t)),
+          ('parse_static_mods', lambda t: P.parse_static_mods(P.parse(t).static_mods)),
+          ('digest-str', lambda t: list(P.digest(t, 'trypsin', 0)))]),
         ('xlmod-string', lambda: 'XLMOD:01002',
          [('mod_mass-avg-p1', lambda x: P.mod_mass(x, False, 1)), ('mod_mass-avg', lambda x: P.mod_mass(x, False)),
           ('mod_mass-mono-p2', lambda x: P.mod_mass(x, True, 2)), ('mod_mass-mono', lambda x: P.mod_mass(x)),
